@@ -226,4 +226,22 @@ theorem iter_inverse {S : Type} (f g : S → S) (h : ∀ s, g (f s) = s) (n : Na
     show iter g n (g (f (iter f n s))) = s
     rw [h, ih]
 
+/-- n unsynchronised steps followed by a synchronisation are n synchronized steps, if two half Kepler drifts make a full one -/
+theorem unsafe_eq_safe {S C : Type} (kepler inter : C → S → S) (half : C → C) (τ : C)
+    (hadd : ∀ s, kepler (half τ) (kepler (half τ) s) = kepler τ s) (n : Nat) (x : S) :
+    uSync kepler half τ (iter (uStep kepler inter half τ) n ⟨x, false⟩) = ⟨iter (whStep kepler inter half τ) n x, false⟩ := by
+  cases n with
+  | zero => rfl
+  | succ n =>
+    have key : ∀ n, iter (uStep kepler inter half τ) (n + 1) ⟨x, false⟩ =
+        ⟨inter τ (kepler (half τ) (iter (whStep kepler inter half τ) n x)), true⟩ := by
+      intro n
+      induction n with
+      | zero => rfl
+      | succ n ih =>
+        rw [iter_succ_right, ih, iter_succ_right (whStep kepler inter half τ) n x]
+        simp only [uStep, if_true, whStep, hadd]
+    rw [key n, iter_succ_right (whStep kepler inter half τ) n x]
+    simp only [uSync, if_true, whStep]
+
 end RV.Reversal
